@@ -74,10 +74,53 @@ def decoder_key_table(facts, dec_ty, key_enum, sec):
                         if fc and fc[0] == 'state' and fc[1]:
                             fields.add(tuple(fc[1]))
             H.walk(a['body'], v2)
+            # expression-oriented form: `let x = match kind { A => Some(v), .. }; if let Some(v) = x { state.f = v }` --
+            # the fields written from x belong to the arms that yield a value other than `None`
+            par = anc[-1] if anc else None
+            if isinstance(par, dict) and par.get('k') == 'slet' and par.get('init') is e and par['pat'].get('k') == 'bind':
+                import symeval as SE
+                vt = SE.SymEval(None, budget=3000).value(a['body'], {})
+                lv = [l for _c, l in SE.leaves(vt)]
+                yields = any(not (isinstance(l, dict) and H.peel(l).get('k') == 'path' and H.peel(l).get('name') == 'None')
+                             and not (isinstance(l, dict) and l.get('k') in ('returned', 'unit')) for l in lv)
+                if yields:
+                    fields |= flows.setdefault(par['pat']['name'], _fields_fed_by(hfn, par['pat']['name']))
             for v in vs:
                 table.setdefault(v, set()).update(fields)
+    flows = {}
     H.walk(hfn['body'], visit)
     return table, path
+
+
+def _fields_fed_by(hfn, name):
+    """state fields assigned / pushed to from local `name` (directly, or under an `if let .. = name`)"""
+    fields = set()
+
+    def mentions(x):
+        hit = []
+        H.walk(x if isinstance(x, dict) else {}, lambda n, a: hit.append(n) if n.get('k') == 'local' and n.get('name') == name else None)
+        return bool(hit)
+
+    def v(n, anc):
+        tgt = None
+        if n.get('k') == 'assign':
+            fc = H.field_chain(n['l'])
+            if fc and fc[0] == 'state' and fc[1]:
+                tgt = tuple(fc[1])
+                src = n['r']
+        elif n.get('k') == 'mcall' and n.get('name') in ('push', 'extend', 'insert'):
+            fc = H.field_chain(H.peel(n['recv']))
+            if fc and fc[0] == 'state' and fc[1]:
+                tgt = tuple(fc[1])
+                src = n['args']
+        if tgt is None:
+            return
+        guarded = any(a.get('k') == 'if' and mentions(a['c']) for a in anc) or \
+            any(a.get('k') == 'match' and mentions(a['scrut']) for a in anc)
+        if guarded or mentions(src if isinstance(src, dict) else {'k': 'x', 'v': src}):
+            fields.add(tgt)
+    H.walk(hfn['body'], v)
+    return fields
 
 
 def _pat_variants(p, key_enum, out):
@@ -998,10 +1041,53 @@ def decoder_event_table(facts):
                     if fc and fc[0] == 'state' and fc[1]:
                         fields.add(tuple(fc[1]))
             H.walk(a['body'], v2)
+            # expression-oriented form: `let x = match kind { A => Some(v), .. }; if let Some(v) = x { state.f = v }` --
+            # the fields written from x belong to the arms that yield a value other than `None`
+            par = anc[-1] if anc else None
+            if isinstance(par, dict) and par.get('k') == 'slet' and par.get('init') is e and par['pat'].get('k') == 'bind':
+                import symeval as SE
+                vt = SE.SymEval(None, budget=3000).value(a['body'], {})
+                lv = [l for _c, l in SE.leaves(vt)]
+                yields = any(not (isinstance(l, dict) and H.peel(l).get('k') == 'path' and H.peel(l).get('name') == 'None')
+                             and not (isinstance(l, dict) and l.get('k') in ('returned', 'unit')) for l in lv)
+                if yields:
+                    fields |= flows.setdefault(par['pat']['name'], _fields_fed_by(hfn, par['pat']['name']))
             for v in vs:
                 table.setdefault(v, set()).update(fields)
+    flows = {}
     H.walk(hfn['body'], visit)
     return table, path
+
+
+def _fields_fed_by(hfn, name):
+    """state fields assigned / pushed to from local `name` (directly, or under an `if let .. = name`)"""
+    fields = set()
+
+    def mentions(x):
+        hit = []
+        H.walk(x if isinstance(x, dict) else {}, lambda n, a: hit.append(n) if n.get('k') == 'local' and n.get('name') == name else None)
+        return bool(hit)
+
+    def v(n, anc):
+        tgt = None
+        if n.get('k') == 'assign':
+            fc = H.field_chain(n['l'])
+            if fc and fc[0] == 'state' and fc[1]:
+                tgt = tuple(fc[1])
+                src = n['r']
+        elif n.get('k') == 'mcall' and n.get('name') in ('push', 'extend', 'insert'):
+            fc = H.field_chain(H.peel(n['recv']))
+            if fc and fc[0] == 'state' and fc[1]:
+                tgt = tuple(fc[1])
+                src = n['args']
+        if tgt is None:
+            return
+        guarded = any(a.get('k') == 'if' and mentions(a['c']) for a in anc) or \
+            any(a.get('k') == 'match' and mentions(a['scrut']) for a in anc)
+        if guarded or mentions(src if isinstance(src, dict) else {'k': 'x', 'v': src}):
+            fields.add(tgt)
+    H.walk(hfn['body'], v)
+    return fields
 
 
 # ------------------------------------------------------------------------------ KV
@@ -1214,6 +1300,83 @@ def check_path_tokens(facts, out):
                    'part the comparison ignores (e.g. the B-spline degree) are merged when written' % (tys or 'nothing'))
     out.add('KT-K5', 'encode::add_path_data', 'segment-decision-on-whole-type', 'src/encode.rs', okc, '' if okc else why,
             ordinal=False)
+    # (d) what follows a type letter: the separator that depends on the position of the control point (`,` after the
+    # last one, `|` otherwise) -- a letter on the last (or only) control point ends the path field
+    from hp import Ctx as _Ctx, IF as _IF, BIN as _BIN, K as _K, ANY as _ANY, CONTAINS as _CONTAINS
+    ctx2 = _Ctx(facts, v_inits, encv)
+    sep_pat = _IF(_BIN('Eq', _ANY(), _BIN('Sub', _ANY(), _K(1))), _K(44), _K(124))      # i == len - 1 ? b',' : b'|'
+
+    def is_sep_value(e, depth=0):
+        """expression whose value is the position-dependent separator"""
+        if depth > 4 or not isinstance(e, dict):
+            return False
+        hit = []
+
+        def v6(x, anc):
+            if hit:
+                return
+            if x.get('k') == 'if' and sep_pat.m(ctx2, x):
+                hit.append(x)
+            elif x.get('k') == 'call':
+                f = x['f']
+                body = None
+                if f.get('k') == 'local':
+                    for i in v_inits.get(f['name'], []):
+                        i2 = H.peel(i)
+                        if isinstance(i2, dict) and i2.get('k') == 'closure':
+                            body = i2['body']
+                elif f.get('k') == 'path' and dict.__contains__(facts.hir, f.get('def')):
+                    body = facts.hir[f['def']]['body']
+                if body is not None and _CONTAINS(sep_pat).m(ctx2, body):
+                    hit.append(x)
+            elif x.get('k') == 'local' and depth < 3:
+                for i in v_inits.get(x['name'], []):
+                    if is_sep_value(i, depth + 1):
+                        hit.append(x)
+        H.walk(e, v6)
+        return bool(hit)
+    letter_matches = []
+
+    def v_lm(x, path):
+        if x.get('k') == 'match' and not x.get('src', '').startswith('TryDesugar'):
+            vs = []
+            for a in x['arms']:
+                _pat_variants(a['pat'], PT_MOD + 'SplineType', vs)
+            if vs:
+                letter_matches.append((x, path))
+    H.walk_paths(encv['body'], v_lm)
+    okd = bool(letter_matches)
+    whyd = 'no type letter writes found'
+    for x, path in letter_matches:
+        # the statement that follows the letter (climbing out of `?` wrappers / inlined helper bodies)
+        nxt = None
+        chain = [a for a, k in path] + [x]
+        for idx in range(len(path) - 1, -1, -1):
+            a, k = path[idx]
+            child = chain[idx + 1]
+            if a.get('k') == 'block' and k == 'stmts':
+                sts = a['stmts']
+                pos = [j for j, s_ in enumerate(sts) if s_ is child]
+                if pos:
+                    if pos[0] + 1 < len(sts):
+                        nxt = sts[pos[0] + 1]
+                    elif 'expr' in a:
+                        nxt = a['expr']
+                    if nxt is not None:
+                        break
+            if a.get('k') in ('if', 'loop', 'closure') or (a.get('k') == 'match' and not a.get('src', '').startswith('TryDesugar')):
+                break
+        good = False
+        if nxt is not None:
+            evs = []
+            H.walk(nxt, lambda y, anc: evs.append(y) if y.get('k') == 'mcall' and y.get('name') in ('write_all', 'write_fmt') else None)
+            good = bool(evs) and is_sep_value(evs[0])
+        if not good:
+            okd = False
+            whyd = ('the type letter written at line %s is not followed by the position-dependent separator (`,` after the last '
+                    'control point, `|` otherwise): a letter on the last or only control point would not end the path field'
+                    % x.get('ln'))
+    out.add('KT-K5', 'encode::add_path_data', 'letter-then-separator', 'src/encode.rs', okd, '' if okd else whyd, ordinal=False)
 
 
 def check_sample_banks(facts, out):
@@ -1239,9 +1402,12 @@ def check_sample_banks(facts, out):
         def v(n, anc):
             if n.get('k') == 'path' and n.get('name', '').startswith('HIT_'):
                 res.add(n['name'])
+            if n.get('k') == 'path' and 'HitSampleDefaultName::' in n.get('def', '') and n.get('name') in (
+                    'Normal', 'Whistle', 'Finish', 'Clap'):
+                res.add('HIT_' + n['name'].upper())          # the variant the HIT_* constants wrap
             if n.get('k') == 'path' and n.get('name') == 'File':
                 res.add('File')
-            if n.get('k') == 'path' and n.get('dk', '').startswith('Const') and dict.__contains__(facts.hir, n.get('def')) \
+            if n.get('k') == 'path' and n.get('dk', '').startswith(('Const', 'AssocConst')) and dict.__contains__(facts.hir, n.get('def')) \
                     and n['def'] not in seen and depth < 4:
                 seen.add(n['def'])          # a local `const TABLE: [(flag, name); N]`
                 res.update(names_of(facts.hir[n['def']]['body'], depth + 1, seen))
